@@ -248,7 +248,10 @@ void hll_union_alloc<A>::union_impl(const hll_sketch_alloc<A>& sketch, uint8_t l
       }
       // a SET is iterated in hash table order, which is sorted by slot address: HIP increments taken in that order
       // are biased (+1..2% for a lg_k=20 SET of 58000 coupons into lg_max_k 16..18), so the composite estimator must be used
-      if (src_impl->getCurMode() == SET && dst_impl->getCurMode() == HLL) dst_impl->putOutOfOrderFlag(true);
+      if (src_impl->getCurMode() == SET && dst_impl->getCurMode() == HLL) {
+        dst_impl->putOutOfOrderFlag(true);
+        static_cast<Hll8Array<A>*>(dst_impl)->putHipAccum(0); // as in the HLL-to-HLL merge: an out-of-order image carries no HIP value
+      }
     }
   } else if (!dst_impl->isEmpty()) { // src is HLL
     if (dst_impl->getCurMode() == LIST || dst_impl->getCurMode() == SET) {
